@@ -23,7 +23,7 @@ BODY_VERBS = ("POST", "PUT", "PATCH")
 RESULT_TYPES = {
     "*User": ("ptr", "User", '{"id":"u1","n":7}', 'User{ID: "u1", N: 7}', '{"id":5,"n":"x"}'),
     "*Item": ("ptr", "Item", '{"sku":"k-9","tags":["a","b"],"price":2.5}', 'Item{Sku: "k-9", Tags: []string{"a", "b"}, Price: 2.5}', '[1,2,3]'),
-    "*Empty": ("ptr", "Empty", '{}', 'Empty{}', '"text"'),
+    "*Wrap": ("ptr", "Wrap", '{"user":{"id":"w","n":2},"ok":true}', 'Wrap{User: &User{ID: "w", N: 2}, OK: true}', '{"user":[1]}'),
     "[]User": ("slice", None, '[{"id":"u1","n":7},{"id":"u2","n":0}]', '[]User{{ID: "u1", N: 7}, {ID: "u2"}}', '{"id":"u1"}'),
     "[]string": ("slice", None, '["a","b c"]', '[]string{"a", "b c"}', '[1,2]'),
     "[]int": ("slice", None, '[3,1,2]', '[]int{3, 1, 2}', '{"a":1}'),
@@ -44,7 +44,10 @@ type Item struct {
 	Price float64  `json:"price"`
 }
 
-type Empty struct{}
+type Wrap struct {
+	User *User `json:"user"`
+	OK   bool  `json:"ok"`
+}
 '''
 BY_SHAPE = {}
 for _t, _v in RESULT_TYPES.items():
@@ -238,12 +241,10 @@ def dummy_arg(p):
 # ------------------------------------------------------------------------------------------------
 
 def c10_oracle(pkg, iface, statuses, bodies, faults):
+    n = iface["name"]
     lines = ["package " + pkg, "", 'import (', '\t"context"', '\t"net/http"', "", '\t"github.com/lopolopen/shoot"', '\t"verifcases/vrest"', ")", "",
-             "func VerifObserve(emit func(string, string)) {",
-             "\tsc := &vrest.Script{}",
-             "\tvar hc *http.Client",
-             '\tc := shoot.NewRest[%s](shoot.BaseURL("http://verif.invalid/api")).ConfigHTTPClient(func(h *http.Client) { h.Transport = sc; hc = h })' % iface["name"],
-             "\tms := []vrest.Method{"]
+             "func verifMethods(c %s) []vrest.Method {" % n,
+             "\treturn []vrest.Method{"]
     for m in iface["methods"]:
         args = [dummy_arg(p) for p in m["params"]]
         if m.get("ctx"):
@@ -257,10 +258,18 @@ def c10_oracle(pkg, iface, statuses, bodies, faults):
             fn = "func(ctx context.Context) (any, *http.Response, error) { r, resp, err := %s; return r, resp, err }" % call
             lines.append('\t\t{Name: "%s", Shape: "%s", Valid: `%s`, Wrong: `%s`, Want: %s, Call: %s},' % (
                 m["name"], shape, valid, wrong, want, fn))
-    lines.append("\t}")
-    lines.append('\tvrest.StatusMatrix(emit, sc, hc, ms, vrest.Statuses("%s"), []string{%s}, []string{%s})' % (
-        statuses, ", ".join('"%s"' % b for b in bodies), ", ".join('"%s"' % f for f in faults)))
-    lines.append("\t_ = context.Background")
+    lines += ["\t}", "}", "",
+              "func VerifObserve(emit func(string, string)) {",
+              "\tsc := &vrest.Script{}",
+              "\tvar hc *http.Client",
+              '\tc := shoot.NewRest[%s](shoot.BaseURL("http://verif.invalid/api")).ConfigHTTPClient(func(h *http.Client) { h.Transport = sc; hc = h })' % n,
+              '\tvrest.StatusMatrix(emit, sc, hc, verifMethods(c), vrest.Statuses("%s"), []string{%s}, []string{%s})' % (
+                  statuses, ", ".join('"%s"' % b for b in bodies), ", ".join('"%s"' % f for f in faults if not f.endswith("-real")))]
+    if "refused-real" in faults:
+        # the client exactly as NewRest built it (transport = conf.BuildMiddleware() = http.DefaultTransport) against a closed local port
+        lines += ['\tif addr := vrest.ClosedPort(); addr != "" {',
+                  '\t\tvrest.RealRefused(emit, verifMethods(shoot.NewRest[%s](shoot.BaseURL("http://"+addr))))' % n,
+                  "\t}"]
     lines.append("}")
     return "\n".join(lines) + "\n"
 
